@@ -2,7 +2,8 @@
 
 Monitor: lock-step twin.  The real object (cache flag as the history sets it) is stepped through a history over
 {train(), eval(), use_cache(on/off), forward, inverse, training step (optimiser update in training mode),
-load_state_dict, .double()/.float(), forward+backward twice, deepcopy}; after every call that returns numbers a
+load_state_dict (of the layer, of its container, of a sub-module that owns parameters), .double()/.float(),
+forward+backward twice, deepcopy}; after every call that returns numbers a
 TWIN - a fresh instance of the same class and constructor arguments with using_cache=False, synchronised through
 load_state_dict (the cache is not part of the state dict, so the twin is independent of it) and put in the same
 mode/dtype - performs the same call and the results are compared.  An exception in the real object that the twin
@@ -27,7 +28,7 @@ REQUIRED_COUNTS = ["compared_calls", "cached_path_calls", "histories", "tour_his
 BUDGET = {"case_timeout": {"quick": 400, "thorough": 3000}}
 
 OPS = ["eval", "train_step", "cache_on", "cache_off", "forward", "inverse", "load_state", "to_double", "to_float",
-       "fwd_bwd_twice", "deepcopy", "train"]
+       "fwd_bwd_twice", "deepcopy", "train", "load_child"]
 CLASSES = ["lu", "qr", "svd", "naive", "conv"]
 
 
@@ -48,7 +49,7 @@ def make(cls, F, seed, cache):
 def gen_cases(tier, seed):
     rng = np.random.default_rng(seed + 3)
     L = 3 if tier == "quick" else 4
-    alpha = ["eval", "train_step", "cache_on", "forward", "inverse", "load_state", "to_double", "fwd_bwd_twice"]
+    alpha = ["eval", "train_step", "cache_on", "forward", "inverse", "load_state", "to_double", "fwd_bwd_twice", "load_child"]
     hist = []
     for n in range(1, L + 1):
         hist.extend(list(h) for h in itertools.product(alpha, repeat=n))
@@ -72,7 +73,7 @@ def gen_cases(tier, seed):
     return cases
 
 
-_P = np.array([3, 2, 2, 1, 4, 4, 2, 1, 1, 2, 1, 1], dtype=float)
+_P = np.array([3, 2, 2, 1, 4, 4, 2, 1, 1, 2, 1, 1, 1.5], dtype=float)
 _P = _P / _P.sum()
 
 
@@ -163,7 +164,7 @@ def run_case(case):
             before = astate(real)
             cached_path = (not real.training) and real.using_cache
             ok = step(r, cls, F, real, twin, op, g, hist[:si + 1], cached_path and changed, before)
-            if op in ("train_step", "load_state"):
+            if op in ("train_step", "load_state", "load_child"):
                 changed = True
             after = astate(real)
             states.add(after)
@@ -232,6 +233,15 @@ def step(r, cls, F, real, twin, op, g, hist, interesting, before):
                 from nflows.transforms.base import CompositeTransform
                 parent = CompositeTransform([real])
                 parent.load_state_dict({"_transforms.0." + k: v for k, v in sd.items()})
+        elif op == "load_child":
+            # a state-dict load addressed to a sub-module that owns part of the parameterisation (the Householder factors of
+            # QR / SVD): the current parameters of the linear transform change without its own load hook being called
+            kids = [(n_, m_) for n_, m_ in real.named_children() if list(m_.parameters())]
+            if kids:
+                n_, m_ = kids[int(torch.randint(len(kids), (1,), generator=g))]
+                m_.load_state_dict({k: (v + 0.5 * torch.randn(v.shape, generator=g).to(v.dtype) if v.is_floating_point() else v)
+                                    for k, v in m_.state_dict().items()})
+                r.count("child_loads")
         elif op == "to_double":
             real.double()
         elif op == "to_float":
